@@ -509,10 +509,53 @@ def _self_derefs(P, m, seen=None):
                 for kk in [g.cls] + list(P.subclasses(g.cls)):
                     m2 = m2 or P.method(kk, nd.func.attr)
             if m2 is not None:
-                out |= _self_derefs(P, m2, seen)
-        if a is not None and a not in tested:
+                for a2 in _self_derefs(P, m2, seen):
+                    if not _assigned_before(m, sn, a2, nd):
+                        out.add(a2)
+        if a is not None and a not in tested and not _assigned_before(m, sn, a, nd):
             out.add(a)
     return out
+
+
+_CFG_MEMO = {}
+
+
+def _assigned_before(m, sn, attr, node):
+    """Inside method m, is every path from the entry to `node` through an assignment `self.attr = <not None>`?"""
+    from ..cfg import CFG
+
+    if m.is_lambda:
+        return False
+    memo = _CFG_MEMO.get(id(m.node))
+    if memo is None or memo[0] is not m.node:
+        try:
+            cfg = CFG(m.node.body)
+        except Exception:
+            return False
+        holder = {}
+        for n in cfg.nodes:
+            if n.ast is None:
+                continue
+            for x in ast.walk(n.ast):
+                holder.setdefault(id(x), n)
+        if len(_CFG_MEMO) > 2000:
+            _CFG_MEMO.clear()
+        memo = (m.node, cfg, holder)
+        _CFG_MEMO[id(m.node)] = memo
+    _, cfg, holder = memo
+    h = holder.get(id(node))
+    if h is None:
+        return False
+    asg = []
+    for n in cfg.nodes:
+        if n.kind == "stmt" and isinstance(n.ast, ast.Assign) and not (isinstance(n.ast.value, ast.Constant) and n.ast.value.value is None):
+            for t in n.ast.targets:
+                for x in ast.walk(t):
+                    if isinstance(x, ast.Attribute) and isinstance(x.ctx, ast.Store) and x.attr == attr and isinstance(x.value, ast.Name) and x.value.id == sn:
+                        asg.append(n)
+    if not asg or h in asg:
+        return False
+    return not cfg.exists_path(cfg.entry, h, avoid=asg)
 
 
 def attr_order(ctx, R, reach, entries=None):
